@@ -276,7 +276,22 @@ def _walk(it):
 
 
 def rule_x2(chk: Check, ir):
-    for name in ("file", "eval"):
+    # the start rules: `file` and `eval`, and every other grammar rule the entry points name (a string constant of parse_string /
+    # parse_file that is a rule name — e.g. a new mode mapped to `interactive`)
+    starts = ["file", "eval"]
+    try:
+        sub = parse_py(repo.SUBHEADER)
+        parser = repo.find_class(sub, "Parser")
+        for fn_name in ("parse_string", "parse_file"):
+            fn = repo.maybe_func(parser, fn_name)
+            if fn is None:
+                continue
+            for n in ast.walk(fn):
+                if isinstance(n, ast.Constant) and isinstance(n.value, str) and n.value in ir.rules and n.value not in starts:
+                    starts.append(n.value)
+    except AnalysisError:
+        pass
+    for name in starts:
         r = ir.rules.get(name)
         if r is None:
             raise AnalysisError(f"start rule {name} vanished")
